@@ -145,4 +145,33 @@ CHECKS = {
         'design_ref': 'DESIGN.md 6 C13',
         'note': 'Wiring exhaustive over the stated family only (rule bodies are placeholders); behavioural rows are ground executions under a 20 s budget.',
     },
+    'C11': {
+        'category': 'proof',
+        'technique': 'contract-based deductive verification: calling convention as a configuration dimension of the fragment contracts; case-complete convention/wrapper analysis; exact static analysis of emitted modules',
+        'text': 'Both calling conventions (named / unnamed) are proved against the same specs for the fragment classes and _run; every emitted definition '
+                'that the driver or another fragment invokes takes _ctx first iff the grammar is named and every invoker supplies it, no public entry point '
+                'exposes it; emitted modules are self-contained over the standard library, contain no assert / __doc__ reads (optimize=2 == plain execution), '
+                'their docstring evaluates back to the description; the generator keeps no state; recompilation is textually equal modulo anonymous rule names.',
+        'design_ref': 'DESIGN.md 6 C11',
+        'note': 'Congruence lemma (same text => same behaviour) on paper; outsourcer trusted; schematic family of 4 grammars x named/unnamed.',
+    },
+    'C17': {
+        'category': 'proof',
+        'technique': 'contract-based deductive verification: case-complete analysis of the real spill path against the driver contract; block accounting on emitted fragments; call-graph obligation',
+        'text': 'With the block budget exhausted the real Expression.compile is shown (8 child kinds x both conventions) to replace a fragment by ONE driver '
+                'request for a helper whose body is exactly that fragment plus the final yield, with captured names passed in order and no free names - so the '
+                'fragment contract is preserved by the driver contract; loops opened by each fragment <= its declared num_blocks (nesting <= 20 by induction); '
+                'wrappers (Seq, Opt, Choice) by their C01 contracts; run-time functions reachable from parse call each other acyclically; visit de-duplicates by id().',
+        'design_ref': 'DESIGN.md 6 C17',
+        'note': 'Known finding shared with C05: names used in inline Python are not captured by helpers. CodeBuilder.has_available_blocks trusted. `if` blocks may be under-declared by one level (indentation limit 100 is far).',
+    },
+    'C20': {
+        'category': 'proof',
+        'technique': 'contract-based verification of a namespace-disjointness (frame) contract by exact static analysis of real emitted text; one obligation per generated name',
+        'text': 'For a grammar that uses every expression form with user identifiers spelled U_..., every name the generator introduces (locals of rule code, '
+                'parameters next to user parameters, module-level definitions, builtins reached by bare name) gets the obligation "cannot collide with a user name"; '
+                'user names reach emitted text only verbatim and the generator does not branch on their spelling, so one analysis covers all renamings.',
+        'design_ref': 'DESIGN.md 6 C20',
+        'note': 'Names violating disjointness on the unchanged tree are inherent in the naming scheme and listed one by one as known findings (temporaries without underscore, matcher<n>, self, builtins); a new colliding name is a violation.',
+    },
 }
